@@ -16,6 +16,7 @@ import TwProofs.Lemmas.TrimSplit
 import TwProofs.Lemmas.TextCall
 import TwProofs.Lemmas.TextCallNum
 import TwProofs.Lemmas.TextCallStr
+import TwProofs.Lemmas.TextAround
 import TwProofs.C12
 
 namespace Tw.C11
@@ -316,6 +317,75 @@ example : evaluateStringPure [] (b "{{ s.contains('b') }}") [(b "s", .str (b "ab
     [32] [32] [] [] (by decide) (by decide) (by decide) (by decide) (.str (b "abc")) (by rfl) (by rfl)
     (.bool true) (by rfl)
   have hs : callStrSrc [32] (b "s") (b "contains") [] 39 (b "b") [] [32] = b "{{ s.contains('b') }}" := by decide
+  rw [hs] at this
+  exact this
+
+/-- **`Hi {{ name.upper() }}!`: a builtin call between two runs of text, from the source bytes on**: the
+    template `pre {{ k.fn() }} post` — any two runs of text with escapes, any white space inside the
+    braces — renders the text of `pre`, the printed result of the built-in `fn` on the converted value of
+    the data entry `k`, the text of `post` (`text_code_text` with the instance for `k.fn()`). -/
+theorem builtin_call_prints_in_text (custom : List ((VType × Bytes) × Nat)) (data : List (Bytes × GoVal)) (env : Env)
+    (hd : KeysDistinct data) (h : envFromMap data = .ok env) (k : Bytes) (g : GoVal) (hm : (k, g) ∈ data) (hk : isName k)
+    (fn : Bytes) (hfn : isName fn) (g1 g2 : Bytes) (hg1 : allWs g1) (hg2 : allWs g2) (rv : Val) (hrv : nativeToObject g = some rv)
+    (htab : hasBuiltinTable rv.type = true) (v : Val) (hcall : callBuiltin rv fn [] = some (.ok v))
+    (pre post : List Seg) (hitems : GItemsOK [.text pre, .code (callCode g1 k fn g2), .text post]) :
+    evaluateStringPure custom (segsSrc pre ++ (callSrc g1 k fn g2 ++ segsSrc post)) data = .ok (segsLit pre ++ v.toStr ++ segsLit post) := by
+  obtain ⟨v0, hv0, hget⟩ := C12.data_is_visible data env hd h k g hm
+  have hv0' : v0 = rv := by rw [hrv] at hv0; cases hv0; rfl
+  subst hv0'
+  have hone : OneStmt (callCode g1 k fn g2) env { custom := custom } v.toStr := by
+    refine ⟨callCode_ok g1 k fn g2 hg1 hg2 hk hfn, by simp [callCode, callKeys], ?_, ?_, ?_⟩
+    · intro g toks tn rest hkeys hcl
+      have hk' : toks.map key = callKeys k fn := hkeys
+      match toks, hk' with
+      | [], hk' => simp [callKeys] at hk'
+      | [_], hk' => simp [callKeys] at hk'
+      | [_, _], hk' => simp [callKeys] at hk'
+      | [_, _, _], hk' => simp [callKeys] at hk'
+      | [_, _, _, _], hk' => simp [callKeys] at hk'
+      | [_, _, _, _, _], hk' => simp [callKeys] at hk'
+      | [_, _, _, _, _, _], hk' => simp [callKeys] at hk'
+      | _ :: _ :: _ :: _ :: _ :: _ :: _ :: _ :: _, hk' => simp [callKeys] at hk'
+      | [t1, t2, t3, t4, t5, t6, t7], hk' =>
+        simp only [callKeys, List.map_cons, List.map_nil, List.cons.injEq, and_true] at hk'
+        obtain ⟨hk1, hk2, hk3, hk4, hk5, hk6, hk7⟩ := hk'
+        have ty1 : t1.ty = .LBRACES := congrArg Prod.fst hk1
+        have ty2 : t2.ty = .IDENT := congrArg Prod.fst hk2
+        have lit2 : t2.lit = k := congrArg Prod.snd hk2
+        have ty3 : t3.ty = .DOT := congrArg Prod.fst hk3
+        have ty4 : t4.ty = .IDENT := congrArg Prod.fst hk4
+        have lit4 : t4.lit = fn := congrArg Prod.snd hk4
+        have ty5 : t5.ty = .LPAREN := congrArg Prod.fst hk5
+        have ty6 : t6.ty = .RPAREN := congrArg Prod.fst hk6
+        have ty7 : t7.ty = .RBRACES := congrArg Prod.fst hk7
+        refine ⟨.expr t6 (.call t4 (.ident t2 t2.lit) t4.lit []), t7, ?_, by rw [ty7]; decide, rfl, ?_⟩
+        · have := parse_call_stmt (g + 24) t1 t2 t3 t4 t5 t6 t7 (tn :: rest) ty1 ty2 ty3 ty4 ty5 ty6 ty7 hcl
+          simpa [callCode, callKeys] using this
+        · intro fu
+          rw [show fu + 8 = (fu + 5) + 1 + 1 + 1 from by omega, evalStmt_succ]
+          simp only [stmtBody, calleesAt_expr]
+          simp only [evalExpr, lit2, lit4, hget, htab, evalExprs, hcall, Bool.not_true, Bool.false_eq_true, if_false, Res.bind_ok]
+    · intro toks hkeys
+      have hk' : toks.map key = callKeys k fn := hkeys
+      cases toks with
+      | nil => simp [callKeys] at hk'
+      | cons t r =>
+        have : key t = (.LBRACES, [123, 123]) := by simpa [callKeys] using (List.cons.inj hk').1
+        have ty : t.ty = .LBRACES := congrArg Prod.fst this
+        exact ⟨t, r, rfl, by rw [ty]; decide, by rw [ty]; decide⟩
+    · intro x hx
+      simp only [callCode, callKeys, List.mem_cons, List.mem_nil_iff, or_false] at hx
+      rcases hx with rfl | rfl | rfl | rfl | rfl | rfl | rfl <;> simp
+  exact text_code_text custom pre post (callCode g1 k fn g2) data env h v.toStr hone hitems
+
+example : evaluateStringPure [] (b "Hi {{ name.upper() }}!") [(b "name", .str (b "ann"))] = .ok (b "Hi ANN!") := by
+  have hitems : GItemsOK [.text [.plain (b "Hi ")], .code (callCode [32] (b "name") (b "upper") [32]), .text [.plain (b "!")]] :=
+    ⟨by decide, by decide, by simp only [afterRunG]; decide, callCode_ok [32] (b "name") (b "upper") [32] (by decide) (by decide) (by decide) (by decide),
+      by decide, by decide, trivial, trivial⟩
+  have := builtin_call_prints_in_text [] [(b "name", .str (b "ann"))] [[(b "name", .str (b "ann"))]] (by simp [KeysDistinct]) (by rfl)
+    (b "name") (.str (b "ann")) (by simp) (by decide) (b "upper") (by decide) [32] [32] (by decide) (by decide) (.str (b "ann")) (by rfl) (by rfl)
+    (.str (b "ANN")) (by rfl) [.plain (b "Hi ")] [.plain (b "!")] hitems
+  have hs : segsSrc [.plain (b "Hi ")] ++ (callSrc [32] (b "name") (b "upper") [32] ++ segsSrc [.plain (b "!")]) = b "Hi {{ name.upper() }}!" := by decide
   rw [hs] at this
   exact this
 
